@@ -6,6 +6,7 @@ import H264.SeiMono
 import H264.SpsExact
 import H264.PpsExact
 import H264.SpsRangesAll
+import H264.SeiScratch
 /-! # C17 — Parsing a partially buffered NAL never contradicts parsing the complete NAL
 
 `Mono p`: on every truncated, still-incomplete view (`fin = wouldBlock`, bits a prefix) the parser `p` either fails
@@ -65,5 +66,13 @@ theorem sei_yields_prefix (r' r : Sei.Reader) (h : Sei.InStep r' r) :
 theorem rbsp_of_prefix (p t : List UInt8) (hv : (Rbsp.unescFrom .start (p ++ t)).2 = true) :
     (Rbsp.unescFrom .start p).2 = true ∧ (Rbsp.unescFrom .start p).1 <+: (Rbsp.unescFrom .start (p ++ t)).1 :=
   Rbsp.unescFrom_prefix .start p t hv
+
+/-- "reusing scratch buffers does not change the outcome": the SEI reader with its caller-supplied scratch vector
+(`resize(len, 0)`, `read_exact`, the message borrows the vector) returns, for every previous content of that vector, the
+result and the next state of the scratch-free model -/
+theorem sei_reader_independent_of_scratch (r : Sei.Reader) (s₁ s₂ : List UInt8) :
+    (Sei.nextS r s₁).1 = (Sei.nextS r s₂).1 ∧ (Sei.nextS r s₁).2.1 = (Sei.nextS r s₂).2.1 := Sei.scratch_irrelevant r s₁ s₂
+theorem sei_reader_with_scratch_is_model (r : Sei.Reader) (scratch : List UInt8) :
+    ((Sei.nextS r scratch).1, (Sei.nextS r scratch).2.1) = Sei.next r := Sei.nextS_eq_next r scratch
 
 end C17
